@@ -23,7 +23,7 @@ META = {
             "writes is, by a hand-written protobuf wire-format specification, a message carrying exactly its "
             "non-empty members with the payload kinds docs/serialization lists.  Tag shift/mask, varint size "
             "formula, the size==0 skip tests, the length-read failure branch, the pushed limit, the cache/skip order, "
-            "unknown-field skip widths, the vector loop condition and the varint/fixed width every scalar trait (32 bit "
+            "unknown-field skip widths, the vector loop condition, the allocation guard of the smart-pointer parsers and the varint/fixed width every scalar trait (32 bit "
             "group, 64 bit group, enum, float, double) writes, reads and sizes with are regenerated from the sources on "
             "every run.  "
             "Tie: ~43 C++ types instantiating the real templates run on random typed values (extremes weighted), "
